@@ -74,15 +74,14 @@ def checksum (m : Nat) (l : List Nat) : Nat :=
   (l.zipIdx.foldl (fun acc (v, i) => (acc + (i + 1) * v) % m) 0)
 
 -- ---------- spec-side references ----------
-/-- memoised reference parameters per width (forced on first use). -/
-def grainThunks : Array (Thunk Grain.Params) :=
-  (Array.range 18).map fun t => Thunk.mk fun _ => Grain.bn254Params t
-def grainParams (t : Nat) : Grain.Params :=
-  match grainThunks[t]? with
-  | some th => th.get
-  | none => Grain.bn254Params t
-def mdsThunks : Array (Thunk (List (List Nat))) :=
-  (Array.range 18).map fun t => Thunk.mk fun _ => Grain.mds q (grainParams t)
+/-- reference parameters per width: (round constants, MDS matrix), filled by `main` (from the on-disk
+    cache of earlier runs or by evaluating the Grain generator) before any op is processed. -/
+abbrev GrainTable := Array (Option (Grain.Params × List (List Nat)))
+
+def grainLookup (tbl : GrainTable) (t : Nat) : Grain.Params × List (List Nat) :=
+  match tbl[t]? with
+  | some (some x) => x
+  | _ => let p := Grain.bn254Params t; (p, Grain.mds q p)
 
 /-- spec-side field configurations: nothing taken from I3.Gen. -/
 def specCfgOf (m limbs r : Nat) (nonres : Nat) : Model.FF.Cfg :=
@@ -92,7 +91,7 @@ def specCfgOf (m limbs r : Nat) (nonres : Nat) : Model.FF.Cfg :=
 def specFF : Model.FF.Cfg := specCfgOf q 4 28 5
 def specFFG : Model.FF.Cfg := specCfgOf gp 1 32 7
 
-def specPoseidon (inp : List Int) (st : Int) (n : Int) : String :=
+def specPoseidon (tbl : GrainTable) (inp : List Int) (st : Int) (n : Int) : String :=
   let okv (v : Int) := decide (0 ≤ v) && decide (v < (q : Int))
   if inp.length = 0 ∨ inp.length > 16 then "ERR:badLen"
   else if !(inp.all okv) then "ERR:notInField"
@@ -100,8 +99,7 @@ def specPoseidon (inp : List Int) (st : Int) (n : Int) : String :=
   else if !(okv st) then "ERR:stateNotInField"
   else
     let t := inp.length + 1
-    let p := grainParams t
-    let mds := match mdsThunks[t]? with | some th => th.get | none => Grain.mds q p
+    let (p, mds) := grainLookup tbl t
     showList toString ((Hades.permute q 5 p.t p.rf p.rp p.rc mds (st.toNat :: inp.map Int.toNat)).take n.toNat)
 
 def specMimc7 (x k : Nat) (n : Nat) : Nat :=
@@ -349,9 +347,9 @@ def specField (c : Model.FF.Cfg) (op : String) (args : List String) : Option Str
   | _, _ => fieldOp c op args
 
 /-- Independent reference for the same op ("-" when the model itself is the reference). -/
-def specOp (op : String) (args : List String) : Option String := do
+def specOp (tbl : GrainTable) (op : String) (args : List String) : Option String := do
   match op, args with
-  | "poseidon.hashex", [inp, st, n] => pure (specPoseidon (← parseIntList? inp) (← parseInt? st) (← parseInt? n))
+  | "poseidon.hashex", [inp, st, n] => pure (specPoseidon tbl (← parseIntList? inp) (← parseInt? st) (← parseInt? n))
   | "blake.hash", [b] => pure (showBytes (Blake.blake512 (← parseBytes? b)))
   | "keccak.hash", slices => pure (showBytes (Keccak.keccak256 (← slices.mapM parseBytes?).flatten))
   | "mimc7.mimc7hashgeneric", [x, kk, n] => pure (toString (specMimc7 (imod (← parseInt? x) q) (imod (← parseInt? kk) q) (← parseNat? n)))
@@ -386,24 +384,78 @@ def specOp (op : String) (args : List String) : Option String := do
     else if op.startsWith "ffg." then specField specFFG (op.drop 4).toString args
     else pure "-"
 
-def step (mode : String) (line : String) : String :=
+def step (tbl : GrainTable) (mode : String) (line : String) : String :=
   match (line.trimAscii.toString.splitOn " ").filter (· ≠ "") with
   | [] => "bad-op"
   | op :: args =>
     let pat := (op.splitOn "@").getD 1 ""
     let op := if op.startsWith "ffraw." || op.startsWith "ffgraw." then op else stripAt op
-    let r := if mode = "spec" then specOp op args else modelOp op pat args
+    let r := if mode = "spec" then specOp tbl op args else modelOp op pat args
     r.getD "bad-op"
 
-partial def loop (mode : String) (hin : IO.FS.Stream) (hout : IO.FS.Stream) : IO Unit := do
+/-- width needed by a line, if it is a Poseidon op. -/
+def widthOf (line : String) : Option Nat :=
+  match (line.trimAscii.toString.splitOn " ").filter (· ≠ "") with
+  | op :: inp :: _ =>
+    if (stripAt op) = "poseidon.hashex" then (parseIntList? inp).map (·.length + 1) else none
+  | _ => none
+
+def showParams (p : Grain.Params) (mds : List (List Nat)) : String :=
+  s!"{p.t} {p.rf} {p.rp}\n" ++ " ".intercalate (p.rc.map toString) ++ "\n" ++ " ".intercalate (p.xs.map toString) ++ "\n"
+    ++ " ".intercalate (p.ys.map toString) ++ "\n" ++ "\n".intercalate (mds.map fun r => " ".intercalate (r.map toString)) ++ "\n"
+
+def readParams (txt : String) : Option (Grain.Params × List (List Nat)) := do
+  let nums (l : String) : Option (List Nat) := ((l.splitOn " ").filter (· ≠ "")).mapM (·.toNat?)
+  match txt.splitOn "\n" with
+  | hd :: rc :: xs :: ys :: rows =>
+    match ← nums hd with
+    | [t, rf, rp] =>
+      let rc ← nums rc; let xs ← nums xs; let ys ← nums ys
+      let mds ← (rows.filter (· ≠ "")).mapM nums
+      if rc.length = (rf + rp) * t ∧ xs.length = t ∧ ys.length = t ∧ mds.length = t then
+        some ({ t := t, rf := rf, rp := rp, rc := rc, xs := xs, ys := ys }, mds)
+      else none
+    | _ => none
+  | _ => none
+
+/-- Grain parameters are spec-side and deterministic; caching them on disk only saves time. -/
+def loadGrain (dir : Option String) (t : Nat) : IO (Grain.Params × List (List Nat)) := do
+  let compute : Unit → Grain.Params × List (List Nat) := fun _ => let p := Grain.bn254Params t; (p, Grain.mds q p)
+  match dir with
+  | none => pure (compute ())
+  | some d =>
+    let f := s!"{d}/grain-{t}.txt"
+    if ← System.FilePath.pathExists f then
+      match readParams (← IO.FS.readFile f) with
+      | some x => if x.1.t = t then return x else pure ()
+      | none => pure ()
+    let x := compute ()
+    try
+      IO.FS.createDirAll d
+      IO.FS.writeFile f (showParams x.1 x.2)
+    catch _ => pure ()
+    pure x
+
+partial def readAll (hin : IO.FS.Stream) (acc : Array String) : IO (Array String) := do
   let line ← hin.getLine
-  if line.isEmpty then return ()
-  hout.putStrLn (step mode line)
-  loop mode hin hout
+  if line.isEmpty then return acc
+  readAll hin (acc.push line)
 
 def main (args : List String) : IO Unit := do
   let mode := args.headD "model"
   let hin ← IO.getStdin
   let hout ← IO.getStdout
-  loop mode hin hout
+  let lines ← readAll hin #[]
+  let mut tbl : GrainTable := Array.replicate 18 none
+  if mode = "spec" then
+    let dir ← IO.getEnv "I3_GRAIN_CACHE"
+    for l in lines do
+      match widthOf l with
+      | some t =>
+        if t ≥ 2 ∧ t ≤ 17 ∧ (tbl[t]?.bind id).isNone then
+          let x ← loadGrain dir t
+          tbl := tbl.set! t (some x)
+      | none => pure ()
+  for l in lines do
+    hout.putStrLn (step tbl mode l)
   hout.flush
